@@ -72,7 +72,9 @@ def classify(pid, cfg, p, sname):
             return "known" if pid == "C03" else "ignore"
         if pid == "C13":
             return "known" if p["d4"] == "1" else "oracle"
-        if tag in DISC_ONLY and p["disc"] != "1":
+        # inside the precondition: by the harness's own ledger (disc), or because the model says the
+        # hypotheses of the safety theorems hold at every step of the history (hyp)
+        if tag in DISC_ONLY and p["disc"] != "1" and p.get("hyp") != "1":
             return "ignore"
         if tag == "C13":
             return "ignore"
@@ -84,7 +86,7 @@ def classify(pid, cfg, p, sname):
             return "ignore"
         if pid == "C13":
             return "known" if p["d4"] == "1" else "oracle"
-        return "oracle" if p["disc"] == "1" else "ignore"
+        return "oracle" if (p["disc"] == "1" or p.get("hyp") == "1") else "ignore"
     if t == "diff":
         return "tie" if set(p["fields"]) & cfg["fields"] else "ignore"
     return "ignore"
